@@ -186,9 +186,36 @@ def validate_codec_traces(ctx, prefix, role, limit_files=None):
     if not files:
         raise ToolError("no walk traces at " + prefix)
     allp = prefix + ".all.ndjson"
+    # at most max_events events are validated (whole histories, taken round-robin from the per-engine files)
+    max_events = 400000
+    total = 0
     with open(allp, "w") as out:
-        for f in files:
-            out.write(open(os.path.join(os.path.dirname(prefix), f)).read())
+        handles = [open(os.path.join(os.path.dirname(prefix), f)) for f in files]
+        pending = [None] * len(handles)
+        live = list(range(len(handles)))
+        while live and total < max_events:
+            for hi in list(live):
+                h = handles[hi]
+                # copy one history: from a "new" event up to (not including) the next one
+                first = pending[hi] or h.readline()
+                pending[hi] = None
+                if not first:
+                    live.remove(hi)
+                    continue
+                out.write(first)
+                total += 1
+                while True:
+                    ln = h.readline()
+                    if not ln:
+                        live.remove(hi)
+                        break
+                    if '"ev":"new"' in ln:
+                        pending[hi] = ln
+                        break
+                    out.write(ln)
+                    total += 1
+        for h in handles:
+            h.close()
     r = tlc_trace_seq("Trace_Codec", "Trace_Codec_%s.cfg" % role, allp)
     ctx.states += r["states"]
     ctx.transitions += r["transitions"]
